@@ -1,6 +1,7 @@
 //! lvh — executes verification cases against the liquid-rust working tree in /repo.
 //! Reads one JSON request per line from the file given as argv[1] (or stdin), writes one
 //! JSON response per line to stdout.  Every request runs inside catch_unwind.
+mod cmp;
 mod stack;
 mod val;
 
@@ -11,6 +12,7 @@ use std::panic::{catch_unwind, AssertUnwindSafe};
 fn dispatch(req: &J) -> J {
     match req["kind"].as_str().unwrap_or("") {
         "stack" => stack::run(req),
+        "cmp" => cmp::run(req),
         k => json!({"error": format!("unknown kind {}", k)}),
     }
 }
